@@ -95,7 +95,8 @@ def collect(x, nodes, syms):
         if x[1] != "hint":
             nodes.append((s, e, x[1]))
     for i, y in enumerate(x):
-        if i > 0 and isinstance(y, str) and y.startswith("@"):
+        if (i > 0 and isinstance(y, str) and y.startswith("@") and i + 1 < len(x)
+                and isinstance(x[i + 1], list) and x[i + 1][:1] == ["sym"] and x[0] != "test"):
             syms.append(span_of(y))
         collect(y, nodes, syms)
 
